@@ -23,14 +23,22 @@ func midpoint(x, y Measurement) Measurement {
 	return m
 }
 
+// compare orders measurements by offset; measurements of equal offset are
+// ordered by timestamp, so that the timestamp of a combined measurement does
+// not depend on the order in which the inputs happen to arrive.
+func compare(a, b Measurement) int {
+	if c := cmp.Compare(a.Offset, b.Offset); c != 0 {
+		return c
+	}
+	return a.Timestamp.Compare(b.Timestamp)
+}
+
 func Median(ms []Measurement) Measurement {
 	n := len(ms)
 	if n == 0 {
 		panic("unexpected number of values")
 	}
-	slices.SortFunc(ms, func(a, b Measurement) int {
-		return cmp.Compare(a.Offset, b.Offset)
-	})
+	slices.SortFunc(ms, compare)
 	i := n / 2
 	if n%2 != 0 {
 		return Measurement{
@@ -46,9 +54,7 @@ func FaultTolerantMidpoint(ms []Measurement) Measurement {
 	if n == 0 {
 		panic("unexpected number of values")
 	}
-	slices.SortFunc(ms, func(a, b Measurement) int {
-		return cmp.Compare(a.Offset, b.Offset)
-	})
+	slices.SortFunc(ms, compare)
 	f := (n - 1) / 3
 	return midpoint(ms[f], ms[n-1-f])
 }
